@@ -19,7 +19,7 @@
 use common::{catch, hash_str, lib, mix, Engine, Json, Report, Rng, WorkQueue};
 use rlib_bitset::Bitset;
 
-const NS: [usize; 8] = [1, 2, 3, 4, 10, 17, 33, 64];
+const NS: [usize; 10] = [1, 2, 3, 4, 10, 17, 33, 64, 130, 200];
 const POOL: usize = 3;
 const MAX_OPS: usize = 60;
 /// every this many operations (and at the end of a history) all pool members are observed
@@ -39,6 +39,8 @@ macro_rules! dispatch {
             17 => $f::<17>($($args),*),
             33 => $f::<33>($($args),*),
             64 => $f::<64>($($args),*),
+            130 => $f::<130>($($args),*),
+            200 => $f::<200>($($args),*),
             other => panic!("N = {} is not instantiated (use one of {:?})", other, NS),
         }
     };
@@ -356,6 +358,21 @@ fn verify<const N: usize>(b: &Bitset<N>, model: &[bool], salt: usize, rep: &mut 
                 ),
                 want: format!("rest {}, total {}, last {:?}, nth {:?}", want_rest, want_idx.len(), want_idx.last(), want_idx.get(k)),
             });
+        }
+    }
+
+    // random scripts of Iterator calls (next / nth / by_ref adaptors / terminals, also on a partly consumed iterator)
+    // against std's slice iterator over the expected indices
+    {
+        let mut r = Rng::new(common::mix(&[salt as u64, want_idx.len() as u64, want_idx.first().cloned().unwrap_or(0) as u64, 0x17e2]));
+        for _ in 0..2 {
+            match common::iter_protocol(b.iter_bits(), &want_idx, &mut r, 12) {
+                Ok(calls) => rep.count("iterator_protocol_calls", calls),
+                Err(e) => {
+                    fails.push(Fail { check: "iter_bits_protocol", got: e, want: format!("the calls behave as on the ascending member list {}", short(&want_idx)) });
+                    break;
+                }
+            }
         }
     }
 
